@@ -365,7 +365,6 @@ pub fn eval(mode: &str, strategy: usize, host: &TableHost, pats: &[TPattern], he
             if let Some(msg) = problem {
                 o.violation(format!("table (strategy {}, {}): the automaton is not well-formed: {}", strategy, heur.to_s(), msg), replay.clone());
             }
-            continue;
         }
         let Some(ms) = catch(|| matches_of(m.find_matches(host))) else {
             o.violation(format!("table: find_matches panicked (strategy {}, {})", strategy, heur.to_s()), replay);
@@ -398,10 +397,13 @@ pub fn eval(mode: &str, strategy: usize, host: &TableHost, pats: &[TPattern], he
             }).collect();
             sorted.sort_by(|a, b| a.0.as_bytes().cmp(b.0.as_bytes()));
             let exp = sexp::l(vec![sexp::a("ok"), S::L(sorted.into_iter().map(|x| x.1).collect())]).to_string();
-            o.case(sexp::l(vec![sexp::a("tab-run"), host.to_s(), dump.clone()]).to_string(), exp, raw.len() >= 3);
+            if mode != "c09" {
+                o.case(sexp::l(vec![sexp::a("tab-run"), host.to_s(), dump.clone()]).to_string(), exp, raw.len() >= 3);
+            }
             let css = S::L(pats.iter().map(|p| if p.convertible { sexp::list(&p.cs, cons_s) } else { S::L(vec![]) }).collect());
             let present = sexp::list(pats, |p| sexp::b(p.convertible));
-            o.case(sexp::l(vec![sexp::a("tab-cert"), host.to_s(), dump, present, css]).to_string(), "(wf 1 sound 1)".to_string(), raw.len() >= 3);
+            let extras = sexp::list(pats, |p| sexp::nums(p.extra.clone().unwrap_or_default()));
+            o.case(sexp::l(vec![sexp::a("tab-cert"), host.to_s(), dump, present, css, extras]).to_string(), "(wf 1 sound 1 scopes () mkeys ())".to_string(), raw.len() >= 3);
         }
         let got: BTreeSet<(usize, Vec<(usize, usize)>)> = ms.into_iter().collect();
         if mode == "c03" || mode == "c04" || mode == "c06" {
